@@ -187,7 +187,9 @@ def call_native(eng, obj, args, kwargs, st):
     if isinstance(obj, SpecFun):
         if all(_concrete(a) for a in args) and obj.py is not None:
             return ok(obj.py(*args), st)
-        return ok(eng.mkbool(obj.smt(*[to_term(a) for a in args])) if obj.ret == "bool" else Sym(obj.smt(*[to_term(a) for a in args]), obj.ret), st)
+        targs = [a if (isinstance(a, str) and k > 0) else to_term(a) for k, a in enumerate(args)]
+        r = obj.smt(*targs)
+        return ok(eng.mkbool(r) if obj.ret == "bool" else Sym(r, obj.ret), st)
     h = NATIVE.get(_key(obj))
     if h is not None:
         return h(eng, args, kwargs, st)
@@ -235,6 +237,16 @@ def call_specop(eng, op, args, kwargs, st):
         rng = z3.And(eng._num(lo) <= j, j < eng._num(hi))
         q = z3.ForAll([j], z3.Implies(rng, body)) if op.name == "forall" else z3.Exists([j], z3.And(rng, body))
         return ok(Sym(q, "bool"), st)
+    if op.name == "forall_str":
+        (f,) = args
+        names = [a.arg for a in f.node.args.args]
+        vs = [fresh("q_" + n, S) for n in names]
+        outs = eng.call(f, [Sym(v, "str") for v in vs], {}, st)
+        if len(outs) != 1 or isinstance(outs[0][0], Raise):
+            raise Unsupported("quantifier body forked")
+        body = eng.truth(outs[0][0], st)
+        body = z3.BoolVal(body) if isinstance(body, bool) else body
+        return ok(Sym(z3.ForAll(vs, body), "bool"), st)
     if op.name == "implies":
         a, b = args
         ta, tb = eng.truth(a, st), eng.truth(b, st)
@@ -876,6 +888,8 @@ def str_method(eng, recv, name, args, kwargs, st):
             parts.append(text_of(eng, v))
         return ok(concat(parts), st)
     if allc:
+        if name == "casefold":
+            return ok(smt.note_casefold(recv), st)
         try:
             r = getattr(recv, name)(*args, **kwargs)
         except Exception as e:  # noqa
